@@ -906,6 +906,21 @@ func (g *gen) instr(in ssa.Instruction, st State, reach string) string {
 		}
 	case *ssa.Range:
 		g.vals[x] = Val{T: g.val(x.X).T, S: g.val(x.X).S, GoT: x.X.Type()}
+		if _, isMap := x.X.Type().Underlying().(*types.Map); isMap {
+			// ghost: the set of keys this range loop has yielded so far (`visited` / `visitedN` in contracts)
+			k, _ := mapKV(x.X.Type())
+			ks := g.ctx.sortOf(k)
+			comp := g.ctx.comp(fmt.Sprintf("rangevisited_%d", len(g.rangeComps)+1), "(Array "+ks+" Bool)")
+			g.rangeComps = append(g.rangeComps, comp)
+			if g.rangeComp == nil {
+				g.rangeComp = map[*ssa.Range]string{}
+				g.rangeDom0 = map[*ssa.Range]string{}
+			}
+			g.rangeComp[x] = comp
+			dom, _, _ := g.ctx.mapCompsT(x.X.Type())
+			g.rangeDom0[x] = g.define("range_dom0", "(Array "+ks+" Bool)", "(select "+g.stGet(st, dom)+" "+g.val(x.X).T+")")
+			g.stSet(st, comp, "((as const (Array "+ks+" Bool)) false)")
+		}
 	case *ssa.Next:
 		g.next(x, st, reach)
 	case *ssa.Jump, *ssa.If:
@@ -1037,7 +1052,7 @@ func (g *gen) storeLoc(st State, l *Loc, v Val, vt types.Type) {
 // immutable constants (assumption: sentinel errors are never reassigned).
 func sentinelErr(gl *ssa.Global) (string, bool) {
 	pt, ok := gl.Type().(*types.Pointer)
-	if !ok || !strings.HasPrefix(gl.Name(), "Err") {
+	if !ok || !(strings.HasPrefix(gl.Name(), "Err") || (gl.Name() == "EOF" && gl.Pkg != nil && gl.Pkg.Pkg.Path() == "io")) {
 		return "", false
 	}
 	if n, ok := pt.Elem().(*types.Named); !ok || n.Obj().Name() != "error" || n.Obj().Pkg() != nil {
@@ -1609,6 +1624,15 @@ func (g *gen) next(x *ssa.Next, st State, reach string) {
 	}
 	g.vals[x] = Val{T: "(mk-" + ts + " " + okc + " " + kT + " " + vT + ")", S: ts, GoT: x.Type()}
 	g.lastNextKey = key
+	if comp, ok := g.rangeComp[rng]; ok {
+		// a key is yielded at most once; when the loop ends, every key that was in the map when the loop
+		// started and still is has been yielded (Go's guarantee for entries neither added nor removed meanwhile)
+		cur := g.stGet(st, comp)
+		g.ctx.assume("(=> " + okc + " (not (select " + cur + " " + key + ")))")
+		domNow := "(select " + g.stGet(st, dom) + " " + iter.T + ")"
+		g.ctx.assume("(=> (and (not " + okc + ") (not (= " + iter.T + " 0))) (forall ((k " + ks + ")) (! (=> (and (select " + g.rangeDom0[rng] + " k) (select " + domNow + " k)) (select " + cur + " k)) :pattern ((select " + cur + " k)))))")
+		g.stSet(st, comp, g.define("range_visited", "(Array "+ks+" Bool)", "(ite "+okc+" (store "+cur+" "+key+" true) "+cur+")"))
+	}
 }
 
 func (g *gen) sliceOp(x *ssa.Slice, st State, reach string) {
